@@ -14,6 +14,7 @@ import copy
 import ctypes
 import math
 import pickle
+import time
 from fractions import Fraction as Fr
 
 import numpy as np
@@ -623,10 +624,10 @@ def run(ctx):
                 "(0..2 vertices, NaN/inf, coordinate differences around the tolerance, other tolerances, "
                 "caller-supplied and wrong-length inside vectors); the bare kernel (ctypes) on the true extent "
                 "with a zero-filled vector; grids up to 12x12 (thorough 30x30) x polygons for "
-                "cells_inside_polygon; Grid objects with a history (80 sequences, thorough 600: constructor / "
+                "cells_inside_polygon; Grid objects with a history (150 sequences, thorough 800: constructor / "
                 "from_dict, then 2..5 of: xllcorner / yllcorner / cellsize assigned in place, clone / "
                 "clone(dtype) / deepcopy / copy / pickle / apply / to_dict-from_dict copies of which one side "
-                "is moved or rescaled and both are asked, clip, other methods and data edits, edits of the "
+                "is moved or rescaled and both are asked, an unrelated grid of the same shape elsewhere, clip, other methods and data edits, edits of the "
                 "returned table, new polygon, same polygon ndarray rewritten in place; a query after every "
                 "step, the polygon following the grid or staying where it was); sequences of 3..5 calls of "
                 "points_inside_polygon on the caller's arrays (points / polygon arrays rewritten in place, "
@@ -938,6 +939,8 @@ def run(ctx):
                   ("cells", fam, min(nrows, 3), min(ncols, 3), None if out is None else min(len(out), 3)))
         judge_cells(idx, case, out)
 
+    t_hist = time.time()
+    n_before_hist = len(terms)
     # ---- Grid objects with a history: the cells returned are those of the geometry the object
     # has NOW (attributes assigned in place, copies edited independently of their source),
     # whatever was asked of the object, of its source or of its copies before
@@ -967,7 +970,7 @@ def run(ctx):
         if isinstance(rp.get("steps"), list):
             run_life_steps(rp["steps"])
 
-    nlife = ctx.scale(80, 600)
+    nlife = ctx.scale(150, 800)
     for _l in range(nlife):
         life = GridLife()
         geom0 = random_geom(rng, ctx)
@@ -1005,7 +1008,7 @@ def run(ctx):
                             fail(idx, f"C15/invariance/{kind}",
                                  f"cell {c} {'returned' if c in pgot else 'not returned'} for the grid {prev[1]!r}, "
                                  f"{'returned' if c in got else 'not returned'} after moving/rescaling grid and "
-                                 f"polygon together to {g!r} (attributes assigned in place on the object, or on a copy of the object asked before)")
+                                 f"polygon together to {g!r}")
                 last[k] = (cpoly, dict(g), exp, got)
             else:
                 last.pop(k, None)
@@ -1014,7 +1017,7 @@ def run(ctx):
         for _s in range(rng.randint(2, 5)):
             k = rng.randrange(len(life.objs))
             g = life.geom[k]
-            act = rng.choice(["move", "move", "rescale", "both", "copy", "copy", "clip", "touch",
+            act = rng.choice(["move", "move", "rescale", "both", "copy", "copy", "sibling", "clip", "touch",
                               "scribble", "newpoly", "again"])
             history.append(act)
             follow = rng.random() < 0.6
@@ -1038,18 +1041,35 @@ def run(ctx):
                     continue
                 if k in last:
                     last[j] = last[k]
-                # one of the two is moved / rescaled, then BOTH are asked
+                # one of the two is moved / rescaled, then BOTH are asked (a shallow copy.copy is
+                # only asked: what it shares with its source is not the property's business)
                 m = rng.choice([k, j])
                 gm = life.geom[m]
                 st = {"op": "set", "obj": m, "np": rng.random() < 0.3}
-                what = rng.choice(["x", "y", "xy", "csz", "all"])
+                what = "none" if how == "copy" else rng.choice(["x", "y", "xy", "csz", "all"])
                 if what in ("x", "xy", "all"):
                     st["xll"] = new_corner(rng, gm["xll"], gm["csz"])
                 if what in ("y", "xy", "all"):
                     st["yll"] = new_corner(rng, gm["yll"], gm["csz"])
                 if what in ("csz", "all"):
                     st["csz"] = new_cellsize(rng, gm["csz"])
-                life.do(st)
+                if what != "none":
+                    life.do(st)
+                first, second = rng.sample([k, j], 2)
+                ask(first, True)
+                ask(second, True)
+            elif act == "sibling":     # an unrelated object of the same shape, elsewhere
+                g2 = dict(g)
+                what = rng.choice(["x", "y", "xy", "csz", "all"])
+                if what in ("x", "xy", "all"):
+                    g2["xll"] = new_corner(rng, g["xll"], g["csz"])
+                if what in ("y", "xy", "all"):
+                    g2["yll"] = new_corner(rng, g["yll"], g["csz"])
+                if what in ("csz", "all"):
+                    g2["csz"] = new_cellsize(rng, g["csz"])
+                j = life.do({"op": "new", "how": rng.choice(["init", "from_dict"]), "geom": g2})
+                if k in last:
+                    last[j] = last[k]
                 first, second = rng.sample([k, j], 2)
                 ask(first, True)
                 ask(second, True)
@@ -1112,7 +1132,7 @@ def run(ctx):
         if isinstance(rp.get("calls"), list):
             run_calls(rp["calls"], rp.get("family", "?"), ("calls-replay",))
 
-    nseq = ctx.scale(70, 600)
+    nseq = ctx.scale(120, 800)
     for _q in range(nseq):
         fam, upoly = base_polygon(rng)
         npts = rng.randint(10, 16)
@@ -1135,6 +1155,9 @@ def run(ctx):
                           "inside": rng.choice([None, None, "own"]), "what": what})
         cm.mark({"call": "gutils.points_inside_polygon sequence", "calls": calls})
         run_calls(calls, fam, ("calls", fam))
+
+    ctx.notes["history_sections_python_s"] = round(time.time() - t_hist, 2)
+    ctx.notes["history_sections_first_case"] = n_before_hist
 
     # ---- correspondence inside Coq
     bad, nshards, failed = cm.run_case_files(PID, HEADER, "pcase", "p_ok", terms, shard=150,
